@@ -80,6 +80,16 @@ CHECKS = {
             'filter_services_inside with three own locations: it must return, keep the matching services and never raise.',
             'Empty string == absent element; the all-absent location is not published (rejected by contract); values outside the '
             'domain V are not covered.', '3/C16'),
+    'C17': ('I', 'exhaustive enumeration of small byte strings x chunk sizes x codings with http.client as independent framing oracle, single-byte corruption at every offset, and the product of Accept-Encoding shapes through the real handler / client code against an RFC 7231 reference',
+            'All byte strings of length <= 4 (thorough 5) over {00, a, CR, LF} with every chunk size 1..len+2 and large bodies (511..65536 '
+            'bytes, thorough up to 5 MiB) with boundary chunk sizes are framed by mk_chunks and decoded by _read_dechunk, '
+            'read_request_body, read_response_body and, as independent oracle, Python\'s http.client.HTTPResponse; every registered '
+            'coding round-trips on request and response paths; every single-byte substitution and every truncation of a compressed '
+            'body must be rejected or yield identical output; unknown codings must raise; all Accept-Encoding headers with 1-2 members '
+            'over 6 tokens x 6 q-forms x 3 separators (3 members over a reduced set) x 4 locally enabled sets are sent through the real '
+            'DispatchingRequestHandler (in-memory socket) and SoapClient._send_soap_request: the coding used must be enabled locally '
+            'and acceptable with q > 0 by an RFC 7231 reference function.',
+            'In-memory sockets; http.client is trusted as framing oracle; bodies outside the enumerated set are not covered.', '3/C17'),
     'C18': ('I', 'bounded-exhaustive enumeration of the lexical / Python value spaces against exact-arithmetic oracles',
             'Every integer millisecond in dense windows (0..2e6, 1e6 around 1.7e12, 1e5 below 2^53/1000; thorough: 0..1e7 plus '
             'ten more windows) is converted xml->py->xml and py->xml->py (including both float neighbours); decimals: the full '
